@@ -58,6 +58,8 @@ struct Canon {
     PP.SuppressTagKeyword = true; PP.Bool = true; PP.SuppressUnwrittenScope = false; PP.AnonymousTagLocations = false;
   }
   std::string ty(QualType T) { return T.getAsString(PP); }
+  // type of a dereferenced expression: looked through local aliases (using return_t = maybe<...>) when it is not dependent
+  std::string tyc(QualType T) { if (!T.isNull() && !T->isDependentType()) T = T.getCanonicalType(); return T.getAsString(PP); }
   std::string nns(const NestedNameSpecifier* Q) {
     if (!Q) return "";
     std::string s; llvm::raw_string_ostream os(s); Q->print(os, PP); return os.str();
@@ -235,15 +237,15 @@ public:
   bool VisitCallExpr(CallExpr* E) {
     if (auto* OC = dyn_cast<CXXOperatorCallExpr>(E)) {
       auto op = OC->getOperator();
-      if (op == OO_Star && OC->getNumArgs() == 1) facts.push_back({"deref", K.ex(OC->getArg(0)), "*", K.ty(OC->getArg(0)->getType().getUnqualifiedType().getNonReferenceType()), E});
-      else if (op == OO_Arrow) facts.push_back({"deref", K.ex(OC->getArg(0)), "->", K.ty(OC->getArg(0)->getType().getUnqualifiedType().getNonReferenceType()), E});
+      if (op == OO_Star && OC->getNumArgs() == 1) facts.push_back({"deref", K.ex(OC->getArg(0)), "*", K.tyc(OC->getArg(0)->getType().getUnqualifiedType().getNonReferenceType()), E});
+      else if (op == OO_Arrow) facts.push_back({"deref", K.ex(OC->getArg(0)), "->", K.tyc(OC->getArg(0)->getType().getUnqualifiedType().getNonReferenceType()), E});
       else if ((op == OO_Slash || op == OO_Percent || op == OO_SlashEqual || op == OO_PercentEqual) && OC->getNumArgs() == 2)
         facts.push_back({"div", getOperatorSpelling(op), K.ex(OC->getArg(0)), K.ex(OC->getArg(1)), E});
       else if (op == OO_Equal && OC->getNumArgs() == 2) facts.push_back({"assign", K.ex(OC->getArg(0)), K.ex(OC->getArg(1)), "=", E});
     }
     if (auto* FD = E->getDirectCallee()) {
       if (FD->getDeclName().isIdentifier() && FD->getName() == "unwrap" && E->getNumArgs() == 1)
-        facts.push_back({"deref", K.ex(E->getArg(0)), "unwrap", K.ty(E->getArg(0)->getType().getUnqualifiedType().getNonReferenceType()), E});
+        facts.push_back({"deref", K.ex(E->getArg(0)), "unwrap", K.tyc(E->getArg(0)->getType().getUnqualifiedType().getNonReferenceType()), E});
     }
     std::string full = K.ex(E);
     std::string cal = full.substr(0, full.find('('));
@@ -253,16 +255,16 @@ public:
   bool VisitCXXMemberCallExpr(CXXMemberCallExpr* E) {
     if (auto* MD = E->getMethodDecl()) {
       std::string n = MD->getNameAsString();
-      if (n == "value") facts.push_back({"deref", K.ex(E->getImplicitObjectArgument()), ".value()", K.ty(E->getImplicitObjectArgument()->getType().getUnqualifiedType().getNonReferenceType()), E});
+      if (n == "value") facts.push_back({"deref", K.ex(E->getImplicitObjectArgument()), ".value()", K.tyc(E->getImplicitObjectArgument()->getType().getUnqualifiedType().getNonReferenceType()), E});
     }
     return true;
   }
   bool VisitUnaryOperator(UnaryOperator* U) {
-    if (U->getOpcode() == UO_Deref) facts.push_back({"deref", K.ex(U->getSubExpr()), "*", K.ty(U->getSubExpr()->getType().getUnqualifiedType().getNonReferenceType()), U});
+    if (U->getOpcode() == UO_Deref) facts.push_back({"deref", K.ex(U->getSubExpr()), "*", K.tyc(U->getSubExpr()->getType().getUnqualifiedType().getNonReferenceType()), U});
     if (U->isIncrementDecrementOp()) facts.push_back({"assign", K.ex(U->getSubExpr()), K.ex(U), "++", U});
     return true;
   }
-  bool VisitMemberExpr(MemberExpr* M) { if (M->isArrow() && !M->isImplicitAccess()) facts.push_back({"deref", K.ex(M->getBase()), "->", K.ty(M->getBase()->getType().getUnqualifiedType()), M}); return true; }
+  bool VisitMemberExpr(MemberExpr* M) { if (M->isArrow() && !M->isImplicitAccess()) facts.push_back({"deref", K.ex(M->getBase()), "->", K.tyc(M->getBase()->getType().getUnqualifiedType()), M}); return true; }
   bool VisitBinaryOperator(BinaryOperator* B) {
     auto op = B->getOpcode();
     if (op == BO_Div || op == BO_Rem || op == BO_DivAssign || op == BO_RemAssign) {
